@@ -430,12 +430,12 @@ def costSitesUrl : List (String × String) := [
   ("parser.BasicParser", "copying conversion []rune(buffer.String())"),
   ("parser.BasicParser", "copying conversion []rune(s)"),
   ("parser.BasicParser", "copying conversion string(bb)"),
-  ("parser.BasicParser", "copying conversion string(i.runes[:])"),
-  ("parser.BasicParser", "copying conversion string(runes[:])"),
-  ("parser.DecodePercentEncoded", "copying conversion string(bytes[:])"),
+  ("parser.BasicParser", "copying conversion string(i.runes)"),
+  ("parser.BasicParser", "copying conversion string(runes)"),
+  ("parser.DecodePercentEncoded", "copying conversion string(bytes)"),
   ("parser.parseHost", "copying conversion []rune(s)"),
-  ("parser.parseOpaqueHost", "copying conversion []rune(input[:])"),
-  ("parser.parseOpaqueHost", "copying conversion string(runes[:])")]
+  ("parser.parseOpaqueHost", "copying conversion []rune(input)"),
+  ("parser.parseOpaqueHost", "copying conversion string(runes)")]
 
 def costSitesCanon : List (String × String) := [
   ("repeatedDecode", "copying conversion []byte(s)")]
